@@ -6,12 +6,16 @@ import CV.Exec
 import CV.Branch
 import CV.AsmSel
 import CV.Inline
+import CV.Opt
+import CV.Gen.Tables
 namespace CV
 
 structure LoadedProg where
   env : Env := []
   fns : Array Fn := #[]
   ports : List Port := []
+  vlo : Nat := 0
+  vhi : Nat := 0
   tids : List (String × Nat) := []     -- trace ids by content
   deriving Inhabited
 
@@ -90,6 +94,25 @@ def handle (st : DState) (line : String) : DState × String :=
       | [a, r, l] => do let a ← a.toNat?; let r ← r.toNat?; let l ← l.toNat?; some ({ wlo := a, rlo := r, len := l } : Port)
       | _ => none
     (st.set id { p with ports := ports }, "ok")
+  -- tids <prog> : the content key of every trace id, in id order
+  | ["tids", id] =>
+    let p := st.get id
+    (st, "ok " ++ " ".intercalate (p.tids.map fun t => hexStr t.1))
+  -- volatile <prog> <lo> <hi>
+  | ["volatile", id, lo, hi] =>
+    let p := st.get id
+    (st.set id { p with vlo := lo.toNat?.getD 0, vhi := hi.toNat?.getD 0 }, "ok")
+  -- csleep <n> : the translated arm for csleep(n), as line tokens, or `reject`
+  | ["csleep", n] =>
+    match n.toInt? with
+    | some k =>
+      (match CV.Gen.csleepArms.find? (fun a => (a.1 : Int) == k) with
+       | some arm => (st, "ok " ++ tokensOfCode (arm.2.map fun t =>
+           let r := asmSel t.1 (if t.2.1 then .abs else .nothing)
+                      { name := "DUMMY", ty := .char, const := true, mem := .zeropage, size := 1 } .k4 true 0 false t.2.2
+           match r with | .instr i => Line.instr i | _ => Line.dummy))
+       | none => (st, "reject"))
+    | none => (st, "badreq")
   -- fn <prog> <namehex> <line tokens>
   | "fn" :: id :: nameh :: toks =>
     match unhexStr nameh, codeOfTokens toks with
@@ -117,10 +140,10 @@ def handle (st : DState) (line : String) : DState × String :=
         let mem := img.foldl (fun (m : Mem) (kv : Nat × Nat) => m.write (BitVec.ofNat 16 kv.1) (BitVec.ofNat 8 kv.2)) Mem.zero
         let cpu : Cpu := { a := BitVec.ofNat 8 a, x := BitVec.ofNat 8 x, y := BitVec.ofNat 8 y,
                            f := Cpu.unpackFlags (BitVec.ofNat 8 pf), mem := mem }
-        let s := run prog p.ports fuel { cpu := cpu, fn := f, pc := 0 }
+        let s := run prog { ports := p.ports, vlo := p.vlo, vhi := p.vhi } fuel { cpu := cpu, fn := f, pc := 0 }
         let memOut := String.join (watch.map fun (w : Nat × Nat) =>
           String.join ((List.range w.2).map fun i => hexOfByte (s.cpu.mem.read (BitVec.ofNat 16 (w.1 + i))).toNat))
-        (st, s!"ok {stopStr s.stop} {s.cpu.a.toNat} {s.cpu.x.toNat} {s.cpu.y.toNat} {flagsByte s.cpu.f} {s.cpu.sp.toNat} {s.cycles} {s.steps} {s.faults} {s.ntrace} t={",".intercalate (s.trace.reverse.map toString)} m={memOut}")
+        (st, s!"ok {stopStr s.stop} {s.cpu.a.toNat} {s.cpu.x.toNat} {s.cpu.y.toNat} {flagsByte s.cpu.f} {s.cpu.sp.toNat} {s.cycles} {s.steps} {s.faults} {s.ntrace} t={",".intercalate (s.trace.reverse.map toString)} m={memOut} c={",".intercalate (s.tcyc.reverse.map toString)}")
     | _, _, _, _, _, _ => (st, "badreq")
   -- lens <prog> <line tokens> : independent encoded length of every line
   | "lens" :: id :: toks =>
@@ -168,6 +191,11 @@ def handle (st : DState) (line : String) : DState × String :=
     match n.toNat?, codeOfTokens calleeT, codeOfTokens callerT with
     | some n, some callee, some caller => (st, "ok 0 " ++ tokensOfCode (appendCode caller callee n))
     | _, _, _ => (st, "badreq")
+  -- opt <line tokens>
+  | "opt" :: toks =>
+    match codeOfTokens toks with
+    | some code => let (c, n) := optimize code; (st, "ok " ++ toString n ++ " " ++ tokensOfCode c)
+    | none => (st, "badreq")
   -- branch <line tokens>
   | "branch" :: toks =>
     match codeOfTokens toks with
